@@ -380,4 +380,283 @@ theorem wrap_post {ver : Ver} {H : Bytes → Bytes} {T0 : Trie} {pre : Nibs} {st
       · intro _
         exact ⟨rfl, fun _ => ⟨(noFresh_withCache h n hp.mem).mpr hnf', htar⟩⟩
 
+/-! ### insert -/
+
+theorem replaceOldValue_opt (ver : Ver) (H : Bytes → Bytes) (T0 : Trie) (d : Death) (fk : Nibs)
+    (bv : Option DVal) (hv : ∀ dv, bv = some dv → OkV ver H T0 fk dv) :
+    replaceOldValue d fk bv = (if optIsRef bv then [rowOf ver H T0 (.val fk)] else []) ++ d := by
+  cases bv with
+  | none => rfl
+  | some dv => exact replaceOldValue_spec ver H T0 d fk dv (hv dv rfl)
+
+theorem newValue_notRef (ver : Ver) (v : Bytes) : (newValue ver v).isRef = false := by
+  unfold newValue; split <;> rfl
+
+theorem path3 (pre cc : Nibs) (ix : Nib) (prest : Nibs) :
+    pre ++ cc ++ [ix] ++ prest = pre ++ (cc ++ ix :: prest) := by simp
+
+theorem ok_of_triple {α β γ δ : Type} (x : α × β × List γ) (f : δ → γ) (news : List δ) (d : List γ)
+    (h : x.2.2 = news.map f ++ d) : (Res.ok x : Res (α × β × List γ)) = .ok (x.1, x.2.1, news.map f ++ d) := by
+  rw [← h]
+
+/-- what the recursive call of an inspector must satisfy -/
+def RecInsert (ver : Ver) (H : Bytes → Bytes) (T0 : Trie) (value : Bytes) (bound : Nat)
+    (rec : Hd → Nibs → Nibs → Bytes → Death → Res (Hd × Bool × Death)) : Prop :=
+  ∀ (hd : Hd) (q k : Nibs) (d0 : Death), k.length < bound → Ok ver H T0 hd q → hd.isNone = false →
+    ∃ hd' ch news, rec hd q k value d0 = .ok (hd', ch, news.map (rowOf ver H T0) ++ d0) ∧
+      OpPost ver H T0 q hd (tInsert (abs T0 hd q) k value) ch hd' news
+
+theorem insertNode_sim (e : Env) (T0 : Trie)
+    (rec : Hd → Nibs → Nibs → Bytes → Death → Res (Hd × Bool × Death))
+    (stored : Hd) (pre key : Nibs) (value : Bytes) (d : Death)
+    (hm : stored.isMem = true) (hok : Ok e.ver e.H T0 stored pre)
+    (hrec : RecInsert e.ver e.H T0 value key.length rec) :
+    ∃ hd' ch news, insertNode e rec stored pre key value d =
+        .ok (hd', ch, news.map (rowOf e.ver e.H T0) ++ d) ∧
+      OpPost e.ver e.H T0 pre stored (tInsert (abs T0 stored pre) key value) ch hd' news := by
+  cases stored with
+  | none => simp [Hd.isMem] at hm
+  | persisted _ => simp [Hd.isMem] at hm
+  | empty _ => simp [Hd.isMem] at hm
+  | leaf c pk lv =>
+    obtain ⟨newsI, hd1, hp⟩ := insertLeaf_sim e.ver e.H T0 c pre pk lv key value d hok.1
+    obtain ⟨news, hd2, hpost⟩ := wrap_post hok hm hp d
+    refine ⟨_, _, news, ?_, hpost⟩
+    simp only [insertNode]
+    rw [hd1]
+    exact ok_of_triple _ _ _ _ hd2
+  | branch c pk bv cs =>
+    obtain ⟨hvals, hkids, hcl⟩ := hok
+    have hok' : Ok e.ver e.H T0 (.branch c pk bv cs) pre := ⟨hvals, hkids, hcl⟩
+    -- every case: build the inspector postcondition, then `inspect`
+    suffices hI : ∃ (ch : Bool) (n : Hd) (newsI : List Pos),
+        insertNode e rec (.branch c pk bv cs) pre key value d =
+          .ok (afterInspect (.branch c pk bv cs) pre (newsI.map (rowOf e.ver e.H T0) ++ d) ch n) ∧
+        InspPost e.ver e.H T0 pre (.branch c pk bv cs)
+          (tInsert (abs T0 (.branch c pk bv cs) pre) key value) ch n newsI by
+      obtain ⟨ch, n, newsI, heq, hp⟩ := hI
+      obtain ⟨news, hd2, hpost⟩ := wrap_post hok' hm hp d
+      refine ⟨_, _, news, ?_, hpost⟩
+      rw [heq]
+      exact ok_of_triple _ _ _ _ hd2
+    simp only [insertNode, abs, tInsert]
+    rw [lcpLen_eq]
+    obtain ⟨cc, ka, pa, rfl, rfl, h3, h4⟩ := lcp_split key pk
+    rw [h3]
+    cases pa with
+    | nil =>
+      simp only [List.append_nil] at hvals hkids hcl hok' ⊢
+      cases ka with
+      | nil =>
+        -- the key of the branch: the value is replaced
+        simp only [List.append_nil, and_self, if_true]
+        refine ⟨!(optEqual bv (newValue e.ver value)), .branch none cc (some (newValue e.ver value)) cs,
+          if optIsRef bv then [.val (pre ++ cc)] else [], ?_, ?_⟩
+        · rw [replaceOldValue_opt e.ver e.H T0 d _ bv hvals]
+          congr 2; split <;> rfl
+        · refine ⟨⟨?_, hkids, fun h hh => by cases hh⟩, by simp [abs, absV_new], rfl, rfl, ?_, ?_, ?_⟩
+          · intro dv hdv; cases hdv; exact okV_new e.ver e.H T0 _ value
+          · intro pos hpos
+            split at hpos
+            · simp only [List.mem_singleton] at hpos
+              subst hpos
+              refine ⟨List.prefix_append _ _, ?_⟩
+              intro hn
+              simp only [Needs] at hn
+              rcases hn with ⟨h, _⟩ | ⟨h, _⟩ | ⟨i, hi⟩
+              · cases h
+              · simp [optIsRef, newValue_notRef] at h
+              · exact below_child_ne_val (needs_below _ _ _ hi) rfl
+            · cases hpos
+          · intro pos hn
+            simp only [Needs] at hn ⊢
+            rcases hn with ⟨h, _⟩ | ⟨h, _⟩ | hi
+            · cases h
+            · simp [optIsRef, newValue_notRef] at h
+            · exact Or.inr (Or.inr hi)
+          · intro hch
+            have heq : optEqual bv (newValue e.ver value) = true := by simpa using hch
+            cases bv with
+            | none => simp [optEqual] at heq
+            | some lv =>
+              simp only [optEqual] at heq
+              obtain ⟨h1, h2⟩ := equal_new e.ver e.H T0 (pre ++ cc) lv value heq
+              refine ⟨by simp [optIsRef, h1], fun hnf => ?_⟩
+              obtain ⟨hnfv, hnfk⟩ := hnf
+              obtain ⟨h5, h6⟩ := h2 (hnfv lv rfl)
+              refine ⟨⟨?_, hnfk⟩, by simp [abs, h5]⟩
+              intro dv hdv; cases hdv; exact h6
+      | cons idx krest =>
+        -- the key leads into child `idx`
+        have hc1 : ¬ (cc.length = cc.length ∧ cc.length = (cc ++ idx :: krest).length) := by simp
+        have hc1' : ¬ (True ∧ cc.length = (cc ++ idx :: krest).length) := by simp
+        have hc2 : ¬ (cc.length < cc.length) := by simp
+        simp only [hc1, hc1', hc2, if_false, List.drop_left']
+        by_cases hnil : (cs idx).isNone = true
+        · -- no child there: a new leaf
+          have hc : cs idx = Hd.none := by cases h : cs idx <;> simp_all [Hd.isNone]
+          simp only [hnil, if_true]
+          refine ⟨true, _, [], rfl, ?_⟩
+          refine ⟨⟨hvals, ok_setKid hkids ⟨okV_new e.ver e.H T0 _ value, fun h hh => by cases hh⟩,
+            fun h hh => by cases hh⟩, ?_, rfl, rfl, by simp, ?_, by simp⟩
+          · simp only [abs, abs_setKid, absV_new, hc, tInsert]
+          · intro pos hn
+            simp only [Needs] at hn ⊢
+            rcases hn with ⟨h, _⟩ | hv | ⟨i, hi⟩
+            · cases h
+            · exact Or.inr (Or.inl hv)
+            · rcases needs_setKid hi with ⟨_, h⟩ | ⟨_, h⟩
+              · simp only [Needs] at h
+                rcases h with ⟨h, _⟩ | ⟨h, _⟩
+                · cases h
+                · simp [newValue_notRef] at h
+              · exact Or.inr (Or.inr ⟨i, h⟩)
+        · -- descend into the child
+          have hnil' : (cs idx).isNone = false := by simpa using hnil
+          obtain ⟨c', ch, newsC, hrc, hpc⟩ := hrec (cs idx) (pre ++ cc ++ [idx]) krest d
+            (by simp; omega) (hkids idx) hnil'
+          simp only [hnil', Bool.false_eq_true, if_false, hrc]
+          refine ⟨ch, _, newsC, rfl, ?_⟩
+          refine ⟨⟨hvals, ok_setKid hkids hpc.ok, fun h hh => by cases hh⟩, ?_, rfl, rfl, ?_, ?_, ?_⟩
+          · simp only [abs, abs_setKid, hpc.abs]
+          · intro pos hpos
+            obtain ⟨hb, hnn⟩ := hpc.fresh pos hpos
+            refine ⟨below_trans (by rw [List.append_assoc]; exact List.prefix_append _ _) hb, ?_⟩
+            intro hn
+            simp only [Needs] at hn
+            rcases hn with ⟨h, _⟩ | ⟨_, hp⟩ | ⟨i, hi⟩
+            · cases h
+            · exact below_child_ne_val hb hp
+            · rcases needs_setKid hi with ⟨_, h⟩ | ⟨hne, h⟩
+              · exact hnn h
+              · exact hne (below_disjoint (needs_below _ _ _ h) hb)
+          · intro pos hn
+            simp only [Needs] at hn ⊢
+            rcases hn with ⟨h, _⟩ | hv | ⟨i, hi⟩
+            · cases h
+            · exact Or.inr (Or.inl hv)
+            · rcases needs_setKid hi with ⟨rfl, h⟩ | ⟨_, h⟩
+              · exact Or.inr (Or.inr ⟨_, hpc.mono pos h⟩)
+              · exact Or.inr (Or.inr ⟨i, h⟩)
+          · intro hch
+            obtain ⟨hn0, hs⟩ := hpc.same hch
+            refine ⟨hn0, fun hnf => ?_⟩
+            obtain ⟨hnfv, hnfk⟩ := hnf
+            obtain ⟨hnc, htc⟩ := hs (hnfk idx)
+            refine ⟨⟨hnfv, noFresh_setKid hnfk hnc⟩, ?_⟩
+            rw [htc]
+            congr 1
+            funext i
+            by_cases hi : i = idx
+            · subst hi; simp [setChild]
+            · simp [setChild, hi]
+    | cons ix prest =>
+      -- the keys diverge inside the partial key: a new branch in between
+      have hc1 : ∀ x, ¬ (cc.length = (cc ++ ix :: prest).length ∧ x) := by
+        intro x hx; simp at hx
+      have hc2 : cc.length < (cc ++ ix :: prest).length := by simp
+      have hp3 := path3 pre cc ix prest
+      have hlower : Ok e.ver e.H T0 (.branch none prest bv cs) (pre ++ cc ++ [ix]) := by
+        refine ⟨?_, ?_, fun h hh => by cases hh⟩
+        · rw [hp3]; exact hvals
+        · intro i; rw [hp3]; exact hkids i
+      have hlowerN : ∀ pos, Needs (.branch none prest bv cs) (pre ++ cc ++ [ix]) pos →
+          Needs (.branch c (cc ++ ix :: prest) bv cs) pre pos := by
+        intro pos hn
+        simp only [Needs] at hn ⊢
+        rcases hn with ⟨h, _⟩ | hv | hk
+        · cases h
+        · rw [hp3] at hv; exact Or.inr (Or.inl hv)
+        · rw [hp3] at hk; exact Or.inr (Or.inr hk)
+      have hlowerA : abs T0 (.branch none prest bv cs) (pre ++ cc ++ [ix]) =
+          branch prest (bv.map (absV T0 (pre ++ (cc ++ ix :: prest))))
+            (fun i => abs T0 (cs i) (pre ++ (cc ++ ix :: prest) ++ [i])) := by
+        simp only [abs, hp3]
+      simp only [hc1, hc2, if_false, if_true, List.drop_left', List.take_left']
+      cases ka with
+      | nil =>
+        simp only [List.append_nil, if_true]
+        refine ⟨true, _, [], rfl, ?_⟩
+        refine ⟨⟨?_, ok_setKid (ok_noKids _) hlower, fun h hh => by cases hh⟩, ?_, rfl, rfl, by simp,
+          ?_, by simp⟩
+        · intro dv hdv; cases hdv; exact okV_new e.ver e.H T0 _ value
+        · simp only [abs, Option.map_some, abs_setKid, abs_noKids, absV_new, hp3]
+        · intro pos hn
+          simp only [Needs] at hn
+          rcases hn with ⟨h, _⟩ | ⟨h, _⟩ | ⟨i', hi⟩
+          · cases h
+          · simp [optIsRef, newValue_notRef] at h
+          · rcases needs_setKid hi with ⟨_, h⟩ | ⟨_, h⟩
+            · exact hlowerN pos h
+            · exact h.elim
+      | cons j krest =>
+        have hc3 : ¬ ((cc ++ j :: krest).length = cc.length) := by simp
+        simp only [hc3, if_false, List.drop_left']
+        refine ⟨true, _, [], rfl, ?_⟩
+        refine ⟨⟨?_, ok_setKid (ok_setKid (ok_noKids _) hlower)
+            ⟨okV_new e.ver e.H T0 _ value, fun h hh => by cases hh⟩, fun h hh => by cases hh⟩,
+          ?_, rfl, rfl, by simp, ?_, by simp⟩
+        · intro dv hdv; cases hdv
+        · simp only [abs, Option.map_none, abs_setKid, abs_noKids, absV_new, hp3]
+        · intro pos hn
+          simp only [Needs] at hn
+          rcases hn with ⟨h, _⟩ | ⟨h, _⟩ | ⟨i', hi⟩
+          · cases h
+          · cases h
+          · rcases needs_setKid hi with ⟨_, h⟩ | ⟨_, h⟩
+            · simp only [Needs] at h
+              rcases h with ⟨h, _⟩ | ⟨h, _⟩
+              · cases h
+              · simp [newValue_notRef] at h
+            · rcases needs_setKid h with ⟨_, h⟩ | ⟨_, h⟩
+              · exact hlowerN pos h
+              · exact h.elim
+
+theorem loadedImg_isMem (ver : Ver) (H : Bytes → Bytes) (h : Bytes) (t : Trie) (ht : t ≠ nil) :
+    (loadedImg ver H h t).isMem = true := by
+  cases t with
+  | nil => exact absurd rfl ht
+  | leaf pk v => rfl
+  | branch pk v cs => rfl
+
+/-- resolving a consistent handle: the stored node is a consistent in-memory node for the same
+    trie that refers to nothing new -/
+theorem resolve_sim (e : Env) (T0 : Trie) (hdb : DbOk e T0) (hd : Hd) (q : Nibs)
+    (hok : Ok e.ver e.H T0 hd q) (hn : hd.isNone = false) :
+    ∃ stored, e.resolve q hd = .ok stored ∧ stored.isMem = true ∧ Ok e.ver e.H T0 stored q ∧
+      abs T0 stored q = abs T0 hd q ∧ (∀ pos, Needs stored q pos → Needs hd q pos) ∧
+      (noFresh hd → noFresh stored) := by
+  cases hd with
+  | none => simp [Hd.isNone] at hn
+  | empty c => exact hok.elim
+  | persisted h =>
+    have hl := load_eq e T0 hdb q h hok
+    obtain ⟨h1, h2, h3, _⟩ := loaded_props e.ver e.H hdb.hlen T0 q h hok
+    refine ⟨_, by simp only [Env.resolve, hl], loadedImg_isMem _ _ _ _ hok.1, h1, h2, ?_, fun _ => h3⟩
+    intro pos hp
+    exact needs_below _ _ _ hp
+  | leaf c pk dv => exact ⟨_, rfl, rfl, hok, rfl, fun _ h => h, fun h => h⟩
+  | branch c pk dvo cs => exact ⟨_, rfl, rfl, hok, rfl, fun _ h => h, fun h => h⟩
+
+/-- **insert on a consistent handle tree** -/
+theorem insertAt_sim (e : Env) (T0 : Trie) (hdb : DbOk e T0) (value : Bytes) :
+    ∀ fuel, RecInsert e.ver e.H T0 value fuel (insertAt e fuel) := by
+  intro fuel
+  induction fuel with
+  | zero => intro hd q k d0 hk; omega
+  | succ f ih =>
+    intro hd q k d0 hk hok hn
+    obtain ⟨stored, hres, hm, hoks, habs, hmono, hnf⟩ := resolve_sim e T0 hdb hd q hok hn
+    have hrec : RecInsert e.ver e.H T0 value k.length (insertAt e f) := by
+      intro hd' q' k' d' hk'
+      exact ih hd' q' k' d' (by omega)
+    obtain ⟨hd', ch, news, heq, hp⟩ := insertNode_sim e T0 (insertAt e f) stored q k value d0 hm hoks hrec
+    refine ⟨hd', ch, news, by simp only [insertAt, hres, heq], ?_⟩
+    rw [habs] at hp
+    exact ⟨hp.ok, hp.abs, hp.mem, hp.fresh, fun pos h => hmono pos (hp.mono pos h), fun hch => by
+      obtain ⟨h1, h2⟩ := hp.same hch
+      exact ⟨h1, fun hh => by
+        obtain ⟨h3, h4⟩ := h2 (hnf hh)
+        exact ⟨h3, by rw [h4, habs]⟩⟩⟩
+
 end Gossamer.C06
